@@ -121,14 +121,17 @@ def cmd_check(pid, tier, args):
       print('HARNESS-ERROR %s' % h.strip().replace('\n', '\n    '))
     rc = 2
   seen = set()
-  for v in unknown:
-    if v.get('dup') or v['sig'] in seen:
+  for v in sorted(unknown, key=lambda v: (bool(v.get('dup')), v['sig'])):
+    if v['sig'] in seen:
       continue
     seen.add(v['sig'])
     print('VIOLATION property=%s replay=%s' % (pid, v.get('replay')))
-    print('  sig=%s seed=%s' % (v['sig'], v.get('seed')))
-    print('  %s' % v.get('detail'))
-    print('  minimised: %s' % jdump(v.get('info')))
+    print('  sig=%s seed=%s occurrences=%d' % (
+      v['sig'], v.get('seed'), len([x for x in unknown if x['sig'] == v['sig']])))
+    info = v.get('info') or {}
+    print('  %s' % (info.get('detail_minimised') or v.get('detail')))
+    if info:
+      print('  minimised: %s' % jdump({k: x for k, x in info.items() if k != 'detail_minimised'}))
     rc = 1
   if merged.get('skipped_groups'):
     print('note: %d groups skipped (wall budget)' % merged['skipped_groups'])
